@@ -205,6 +205,4 @@ package actions
 //@   modifies colVer
 //@   ensures setvarEffect(a, txCollection(tx, a.collection), lower(expand(a.key, tx)), ite(isnil(a.value), "", expand(a.value, tx)), old(colVer), colVer)
 
-// ---- build-cache keys (C13)
-//@ func parseCtl props C13
-//@   memoize re
+// ---- build-cache keys (C13): the parseCtl unit (memoize re) lives in zz_contracts_ctl_verif.go
